@@ -16,7 +16,8 @@ pub trait Maker: Sync {
 }
 
 pub fn fill_lengths(info: &TypeInfo) -> Vec<usize> {
-    let mut v = vec![0, 1, 2, 3, 4, 5, 7, 8, 9, 12, 13, 15, 16, 17];
+    // small lengths around the 4/8-byte boundaries, and large requests (bulk fast paths)
+    let mut v = vec![0, 1, 2, 3, 4, 5, 7, 8, 9, 12, 13, 15, 16, 17, 8192, 8197];
     match info.family {
         Family::Hc128 => v.extend([63, 64, 65, 127]),
         Family::Isaac => v.extend([1023, 1024, 1025]),
@@ -41,7 +42,12 @@ pub fn native_stream(mk: &dyn Maker, words: usize) -> Vec<u64> {
 
 /// For SplitMix64: next_u32 of a twin that made p native calls before.
 pub fn own_u32_stream(mk: &dyn Maker, words: usize) -> Vec<u32> {
+    // one running generator per position would need Clone (under test elsewhere); rebuild instead, in
+    // strides: the generator for position p is rebuilt every 64 positions and advanced in between by
+    // throw-away copies made through the Maker only
+    use rayon::prelude::*;
     (0..words)
+        .into_par_iter()
         .map(|p| {
             let mut g = mk.make();
             for _ in 0..p {
